@@ -133,6 +133,34 @@ var sinkFuncs = map[string]bool{
 	"fmt.Print": true, "fmt.Printf": true, "fmt.Println": true,
 	"(*os.File).Write": true, "(*os.File).WriteString": true, "os.WriteFile": true,
 	"drc.abort": true, "doapprove.abort": true, "program.warn": true,
+	// library functions that panic with a message quoting their argument: the Go runtime prints
+	// the panic value on stderr (errlog.HandleAbort re-raises what is not its own abort)
+	"regexp.MustCompile": true, "regexp.MustCompilePOSIX": true,
+	"text/template.Must": true, "html/template.Must": true,
+}
+
+// quotedPattern: v is built from constants and results of regexp.QuoteMeta only.
+func quotedPattern(v ssa.Value, d int) bool {
+	if d > 8 {
+		return false
+	}
+	switch x := v.(type) {
+	case *ssa.Const:
+		return true
+	case *ssa.BinOp:
+		return x.Op == token.ADD && quotedPattern(x.X, d+1) && quotedPattern(x.Y, d+1)
+	case *ssa.Phi:
+		for _, e := range x.Edges {
+			if !quotedPattern(e, d+1) {
+				return false
+			}
+		}
+		return true
+	case *ssa.Call:
+		f := x.Common().StaticCallee()
+		return f != nil && shortName(f) == "regexp.QuoteMeta"
+	}
+	return false
 }
 
 func isBuilderWriter(v ssa.Value) bool {
@@ -792,6 +820,10 @@ func (e *taintEngine) callEffects(c *fnCtx, call ssa.CallInstruction) {
 		}
 	}
 	isSink := sinkFuncs[name] || (strings.HasPrefix(name, "fmt.Fprint") && len(com.Args) > 0 && !isBuilderWriter(com.Args[0]))
+	if isSink && strings.HasPrefix(name, "regexp.MustCompile") && len(com.Args) == 1 && quotedPattern(com.Args[0], 0) {
+		// every variable part of the pattern went through regexp.QuoteMeta: it cannot fail to compile
+		isSink = false
+	}
 	if isSink {
 		e.sinkSites[e.p.ipos(call)+" "+name] = true
 		l := lset{}
@@ -870,7 +902,7 @@ func runTaint(p *Prog) *taintEngine {
 
 func checkC17(p *Prog, r *Report) {
 	ruleRegexpConsts(p, r, "R-RX", "C17", 1)
-	r.rule("R17.1", "No secret reaches a log/terminal sink. Sources: result 2 of (*program.Config).GetUserPass, term.ReadPassword, Config.Password (password); the keygen reply passed to panos.parseAPIKey and its result, hence panos.State.urlPrefix (apikey); the x-xsrf-token response header, hence nsx.State.token (token). Sinks: errlog.Info/Warning/Abort/DoLog/PrintWithMarker, fmt.Print*, fmt.Fprint* to anything but a local strings.Builder, (*os.File).Write*, os.WriteFile, console.logString, doapprove.logHistory, status.write and the front-ends' abort/warn helpers. Propagation: inter-procedural with label-polymorphic summaries (parameter -> result, parameter -> sink, parameter -> field), field-based for struct fields, flow-sensitive for mutable containers (url.Values, headers, builders: tainted only after the instruction that stores the secret), and the error of (*http.Client).Get/Do/PostForm carries the labels of the request URL. Sanitisers: (*regexp.Regexp).ReplaceAllString whose pattern names the label (password=, key=, <key>) and whose replacement contains xxx. What is sent to the device is not a sink.")
+	r.rule("R17.1", "No secret reaches a log/terminal sink. Sources: result 2 of (*program.Config).GetUserPass, term.ReadPassword, Config.Password (password); the keygen reply passed to panos.parseAPIKey and its result, hence panos.State.urlPrefix (apikey); the x-xsrf-token response header, hence nsx.State.token (token). Sinks: errlog.Info/Warning/Abort/DoLog/PrintWithMarker, regexp.MustCompile* (panics with a message quoting the pattern, printed by the runtime), fmt.Print*, fmt.Fprint* to anything but a local strings.Builder, (*os.File).Write*, os.WriteFile, console.logString, doapprove.logHistory, status.write and the front-ends' abort/warn helpers. Propagation: inter-procedural with label-polymorphic summaries (parameter -> result, parameter -> sink, parameter -> field), field-based for struct fields, flow-sensitive for mutable containers (url.Values, headers, builders: tainted only after the instruction that stores the secret), and the error of (*http.Client).Get/Do/PostForm carries the labels of the request URL. Sanitisers: (*regexp.Regexp).ReplaceAllString whose pattern names the label (password=, key=, <key>) and whose replacement contains xxx. What is sent to the device is not a sink.")
 	e := runTaint(p)
 	// every syntactic source site, whether or not anything downstream asked for it
 	for _, fn := range allModFuncs(p) {
